@@ -35,6 +35,15 @@ Round 2 additions:
   `C16_reach_latch`, `C16_reach_latch_hyps`, `C16_reach_latch_clear`, `C16_reach_backingOff`,
   `C16_reach_lowering`, `C16_reach_ctl`, `C16_reach_growth_ctl`.
 * `C16_counter_reset_no_sample_strong`: the counter-reset clause without the superfluous lower bound.
+
+Round 4 additions (third audit):
+
+* `C16_seed_tick` / `C16_seed_tick_step`: the seeding tick out of Bootstrap (exact arithmetic) — the one
+  tick neither `C16_growth` nor `C16_lowered_only_by` constrains.
+* `C16_only_tick_moves` also concludes `lossEwma`, `lossHighSince`, `climbMode`.
+* **which history an entry is the state of**: `C16_reach_is_calls`, `C16_entry_is_session_run`,
+  `C16_session_entry` (`ctlOf`, `Session`, `sessionOps` in Lemmas), and the `tick_all` forms
+  `C16_floor_until_rtt_ctl`, `C16_latch_set_ctl`, `C16_latch_clear_ctl` (+ `_literal`).
 -/
 namespace Srtla.Props.C16
 open Srtla.LinkCc Srtla.Gen.LinkCc
@@ -55,15 +64,32 @@ theorem C16_bootstrap_at_floor (ops : List (Op F)) (h : (run ops).state = .boots
   (inv_run ops).2.2 h
 
 /-- Only `tick` moves the cap, the state, the loss EWMA or the degraded latch: RTT samples, counter
-snapshots (including counter resets) and loss samples leave them untouched. -/
+snapshots (including counter resets) and loss samples leave them untouched — as well as the latch's
+sustain timer `loss_high_since` and the climb mode.
+(Round 4: `lossEwma`, `lossHighSince`, `climbMode` added to the conclusion; the docstring promised
+the loss EWMA from the start.) -/
 theorem C16_only_tick_moves (ops : List (Op F)) (op : Op F) (h : ∀ o now, op ≠ .tick o now) :
     (apply (run ops) op).target = (run ops).target ∧ (apply (run ops) op).state = (run ops).state ∧
-    (apply (run ops) op).lossDegraded = (run ops).lossDegraded := by
-  cases op with
-  | tick o now => exact absurd rfl (h o now)
-  | rtt x now => obtain ⟨a, b, c, -⟩ := keeps_recordRtt (run ops) x now; exact ⟨a, b, c⟩
-  | traffic bt n now => obtain ⟨a, b, c, -⟩ := keeps_observeTraffic (run ops) bt n now; exact ⟨a, b, c⟩
-  | loss sn l now => obtain ⟨a, b, c, -⟩ := keeps_recordLoss (run ops) sn l now; exact ⟨a, b, c⟩
+    (apply (run ops) op).lossDegraded = (run ops).lossDegraded ∧
+    (apply (run ops) op).lossEwma = (run ops).lossEwma ∧
+    (apply (run ops) op).lossHighSince = (run ops).lossHighSince ∧
+    (apply (run ops) op).climbMode = (run ops).climbMode := by
+  have key : Keeps (run ops) (apply (run ops) op) := by
+    cases op with
+    | tick o now => exact absurd rfl (h o now)
+    | rtt x now => exact keeps_recordRtt (run ops) x now
+    | traffic bt n now => exact keeps_observeTraffic (run ops) bt n now
+    | loss sn l now => exact keeps_recordLoss (run ops) sn l now
+  obtain ⟨a, b, c, d, f, g⟩ := key
+  exact ⟨a, b, c, f, d, g⟩
+
+/-- Non-vacuity on a state where the six fields are not at their defaults: after the latch witness
+(`C16_reach_latch`: BackingOff, loss EWMA 1, timer armed at 1000, latched) an RTT sample, a counter
+snapshot and a loss sample are not ticks. -/
+example (x : F) (b : Nat) (n : Int) (t : Nat) :
+    (∀ o now, (Op.rtt x t : Op F) ≠ .tick o now) ∧ (∀ o now, (Op.traffic b n t : Op F) ≠ .tick o now) ∧
+    (∀ o now, (Op.loss b b t : Op F) ≠ .tick o now) := by
+  refine ⟨?_, ?_, ?_⟩ <;> intro o now h <;> cases h
 
 /-- Counter reset after a reconnect, strong form (no lower bound on how far the NAK counter went
 down): when the cumulative byte counter does not advance and the NAK counter does not advance (both
@@ -769,5 +795,417 @@ example :
   ⟨@CtlReach.tick Rat witScalar _ _ _ (@CtlReach.empty Rat witScalar),
    @C16_gc_restart Rat witScalar [] [] [] (witConn 0 0 1000000) 500 rfl (by simp) (by simp),
    by decide +kernel, by decide +kernel⟩
+
+/-! ## Round 4 (P-C item 1): the seeding tick
+
+The first tick that finds an RTT estimate leaves Bootstrap: the target is first SEEDED from the
+outlier-clamped measured throughput and then the state arm of that same tick is applied to the seed.
+`C16_growth` assumes `s.state ≠ bootstrap` and `C16_lowered_only_by` speaks only when the target
+fell, so before this section the seeding tick (e.g. 100000 → 850000 in BackingOff,
+`C16_reach_backingOff`) was constrained by `C16_bounds` alone. -/
+section seed
+variable (e : Rat → Rat) (fin : Rat → Bool) (infv : Rat)
+
+/-- The seeding tick, exact arithmetic, every history: when a tick takes the controller out of
+Bootstrap, with `seed := min (max (min obs 4000000) 1000000) 200000000` (the observed rate clamped to
+the outlier bound `4 · INITIAL_TARGET_BPS`, raised to the initial target 1 Mbit/s, capped at the
+maximum — so `seed ∈ [1000000, 4000000]`), the new target lies in
+`[max ⌊0.75·seed⌋ 100000, ⌊1.06·seed⌋]`, and each state arm holds RELATIVE TO `seed`: Climbing grows
+from `seed` by at most 6 % and only up to twice the (clamped) measured rate, Holding is exactly
+`seed`, BackingOff is in `[⌊0.85·seed⌋, seed]` and not below the delivered rate `min obs 4000000`,
+Drain (always an entry here) is exactly `max ⌊0.75·seed⌋ 100000`. -/
+theorem C16_seed_tick (ops : List (Op Rat)) (obs now : Nat) :
+    let s := @run Rat (ratScalar e fin infv) ops
+    let s' := @tick Rat (ratScalar e fin infv) s obs now
+    let seed := min (max (min obs 4000000) 1000000) 200000000
+    s.state = .bootstrap → s'.state ≠ .bootstrap →
+      1000000 ≤ seed ∧ seed ≤ 4000000 ∧
+      max (seed * 750 / 1000) 100000 ≤ s'.target ∧ s'.target ≤ seed * 1060 / 1000 ∧
+      (s'.state = .climbing → seed ≤ s'.target ∧ s'.target * 1000 ≤ seed * 1060 ∧
+        (seed < s'.target → s'.target ≤ 2 * min obs 4000000)) ∧
+      (s'.state = .holding → s'.target = seed) ∧
+      (s'.state = .backingOff → s'.target ≤ seed ∧ seed * 850 / 1000 ≤ s'.target ∧
+        min obs 4000000 ≤ s'.target) ∧
+      (s'.state = .drain → s'.target = max (seed * 750 / 1000) 100000) := by
+  intro s s' seed hb hne
+  have es : s = @run Rat (ratScalar e fin infv) ops := rfl
+  have es' : s' = @tick Rat (ratScalar e fin infv) s obs now := rfl
+  clear_value s' s
+  have hinv : Inv s := es ▸ @inv_run Rat (ratScalar e fin infv) ops
+  have ht0 : s.target = 100000 := hinv.2.2 hb
+  have hn : @noRtt Rat (ratScalar e fin infv) (@evictExpired Rat s now) = false := by
+    cases hc : @noRtt Rat (ratScalar e fin infv) (@evictExpired Rat s now)
+    · rfl
+    · exact absurd ((@tick_boot Rat (ratScalar e fin infv) s obs now hc).1) (es' ▸ hne)
+  have k := tick_target_R e fin infv s obs now hinv hn
+  simp only [hb, if_true, ht0] at k
+  rw [← es'] at k
+  have hso : min obs (4 * max 100000 1000000) = min obs 4000000 := by omega
+  rw [hso] at k
+  have hseed : seedTarget (min obs 4000000) = seed := (seedTarget_bounds _).2.2
+  rw [hseed] at k
+  obtain ⟨k1, k2, kne, kc, kh, kb, kd⟩ := k
+  have hs1 : 1000000 ≤ seed := by omega
+  have hs2 : seed ≤ 4000000 := by omega
+  have hdne : CcState.bootstrap ≠ CcState.drain := by simp
+  have hs3 : min obs 4000000 ≤ seed := by omega
+  have hcases : ∀ st : CcState, st = .bootstrap ∨ st = .climbing ∨ st = .holding ∨ st = .backingOff ∨ st = .drain := by
+    intro st; cases st <;> simp
+  clear_value seed
+  refine ⟨hs1, hs2, ?_, ?_, ?_, ?_, ?_, ?_⟩
+  · rcases hcases s'.state with c | c | c | c | c
+    · exact absurd c kne
+    · have := (kc c).1; omega
+    · have := kh c; omega
+    · have := (kb c).2.1; omega
+    · have := (kd c).2 hdne; omega
+  · rcases hcases s'.state with c | c | c | c | c
+    · exact absurd c kne
+    · have := (kc c).2.1; omega
+    · have := kh c; omega
+    · have := (kb c).1; omega
+    · have := (kd c).2 hdne; omega
+  · intro c; exact kc c
+  · intro c; exact kh c
+  · intro c
+    obtain ⟨a, b, d⟩ := kb c
+    refine ⟨a, b, ?_⟩
+    omega
+  · intro c; exact (kd c).2 hdne
+
+/-- `C16_seed_tick` for one loop body of `tick_all` applied to a history state: the RTT sample and
+the counter snapshot of the body do not change `state`, and the body's tick is the seeding tick. -/
+theorem C16_seed_tick_step (ops : List (Op Rat)) (c : ConnIn Rat) (now : Nat) :
+    letI := ratScalar e fin infv
+    let s := run ops
+    let s' := connStep s c now
+    let obs := Scalar.toU64 (fmax c.bitrate zero)
+    let seed := min (max (min obs 4000000) 1000000) 200000000
+    s.state = .bootstrap → s'.state ≠ .bootstrap →
+      max (seed * 750 / 1000) 100000 ≤ s'.target ∧ s'.target ≤ seed * 1060 / 1000 ∧
+      (s'.state = .climbing → seed ≤ s'.target ∧ s'.target * 1000 ≤ seed * 1060 ∧
+        (seed < s'.target → s'.target ≤ 2 * min obs 4000000)) ∧
+      (s'.state = .holding → s'.target = seed) ∧
+      (s'.state = .backingOff → s'.target ≤ seed ∧ seed * 850 / 1000 ≤ s'.target ∧
+        min obs 4000000 ≤ s'.target) ∧
+      (s'.state = .drain → s'.target = max (seed * 750 / 1000) 100000) := by
+  intro s s' obs seed
+  have es' : s' = @tick Rat (ratScalar e fin infv)
+      (@run Rat (ratScalar e fin infv) (ops ++ @connPre Rat (ratScalar e fin infv) c now)) obs now := by
+    simp only [s', s]
+    rw [@connStep_eq_tick Rat (ratScalar e fin infv), @connPre_run Rat (ratScalar e fin infv)]
+    rfl
+  obtain ⟨-, ks, -⟩ := @keeps_connPre Rat (ratScalar e fin infv) s c now
+  rw [@connPre_run Rat (ratScalar e fin infv)] at ks
+  have k := C16_seed_tick e fin infv (ops ++ @connPre Rat (ratScalar e fin infv) c now) obs now
+  simp only [← es', ks] at k
+  intro hb hne
+  exact (k hb hne).2.2
+
+/-- `C16_seed_tick` at controller level: for a controller reachable from the empty map and a link
+that occurs once in the `tick_all` call, WITH OR WITHOUT an entry (a link seen for the first time, or
+collected after it vanished, starts from the default state, which is in Bootstrap): if the state the
+loop body starts from is in Bootstrap and the entry after the call is not, the new target obeys the
+seeding envelope relative to `seed`. -/
+theorem C16_seed_tick_ctl (m : Ctl Rat) (hm : @CtlReach Rat (ratScalar e fin infv) m)
+    (pre post : List (ConnIn Rat)) (c : ConnIn Rat) (now : Nat)
+    (hpre : ∀ d ∈ pre, d.id ≠ c.id) (hpost : ∀ d ∈ post, d.id ≠ c.id) :
+    letI := ratScalar e fin infv
+    let s := (m.get c.id).getD St.default
+    let s' := connStep s c now
+    let obs := Scalar.toU64 (fmax c.bitrate zero)
+    let seed := min (max (min obs 4000000) 1000000) 200000000
+    (tickAll m (pre ++ c :: post) now).get c.id = some s' ∧
+    (s.state = .bootstrap → s'.state ≠ .bootstrap →
+      max (seed * 750 / 1000) 100000 ≤ s'.target ∧ s'.target ≤ seed * 1060 / 1000 ∧
+      (s'.state = .climbing → seed ≤ s'.target ∧ s'.target * 1000 ≤ seed * 1060 ∧
+        (seed < s'.target → s'.target ≤ 2 * min obs 4000000)) ∧
+      (s'.state = .holding → s'.target = seed) ∧
+      (s'.state = .backingOff → s'.target ≤ seed ∧ seed * 850 / 1000 ≤ s'.target ∧
+        min obs 4000000 ≤ s'.target) ∧
+      (s'.state = .drain → s'.target = max (seed * 750 / 1000) 100000)) := by
+  obtain ⟨ops, hops⟩ := @CtlReach.getD_run Rat (ratScalar e fin infv) m hm c.id
+  refine ⟨@tickAll_get_present Rat (ratScalar e fin infv) m pre post c now hpre hpost, ?_⟩
+  rw [hops]
+  exact C16_seed_tick_step e fin infv ops c now
+
+end seed
+
+/-- Non-vacuity of `C16_seed_tick` on the witness of `C16_reach_backingOff`: the state before the tick
+is Bootstrap at the floor, the tick (observed 500 kbit/s, 100 % loss) leaves Bootstrap into BackingOff;
+`seed = 1000000` and the new target is `⌊0.85·seed⌋ = 850000` — inside
+`[max ⌊0.75·seed⌋ 100000, ⌊1.06·seed⌋] = [750000, 1060000]`, NOT within 6 % of the old target 100000. -/
+example :
+    letI := witScalar
+    let ops : List (Op Rat) := [.rtt 10 1, .loss 10 10 1000]
+    (run ops).state = .bootstrap ∧ (run ops).target = 100000 ∧
+    (tick (run ops) 500000 1000).state = .backingOff ∧ (tick (run ops) 500000 1000).target = 850000 ∧
+    min (max (min 500000 4000000) 1000000) 200000000 = 1000000 := by decide +kernel
+
+/-- … and a seeding tick into Climbing with a burst (observed 9 Mbit/s, clamped to 4 Mbit/s):
+`seed = 4000000`, new target `⌊1.06·seed⌋ = 4240000`. -/
+example :
+    letI := witScalar
+    let ops : List (Op Rat) := [.rtt 10 1]
+    (run ops).state = .bootstrap ∧
+    (tick (run ops) 9000000 500).state = .climbing ∧ (tick (run ops) 9000000 500).target = 4240000 ∧
+    min (max (min 9000000 4000000) 1000000) 200000000 = 4000000 := by decide +kernel
+
+/-- `C16_seed_tick_ctl` on a link without entry: the empty controller, link 7 once in the call; the
+body starts from the default state (Bootstrap) and ends in Climbing at `⌊1.06·1000000⌋`. -/
+example :
+    letI := witScalar
+    ((Ctl.get ([] : Ctl Rat) 7).getD St.default).state = .bootstrap ∧
+    (connStep ((Ctl.get ([] : Ctl Rat) 7).getD St.default) (witConn 0 0 1000000) 500).state = .climbing ∧
+    (connStep ((Ctl.get ([] : Ctl Rat) 7).getD St.default) (witConn 0 0 1000000) 500).target = 1060000 := by
+  decide +kernel
+
+/-! ## Round 4 (P-C item 2): controller level — which history an entry is the state of
+
+`C16_entry_is_run` says every entry of a reachable controller is `run ops` for SOME op list.  Here the
+op list is identified: index the controller by the `tick_all` calls that produced it (`ctlOf calls`,
+oldest first; every `CtlReach` controller is one, `C16_reach_is_calls`); the entry of key `id` is
+`run` of the concatenation of `connOps c now` (RTT sample if `> 0.0`, counter snapshot, tick) over
+exactly the inputs `c` with `c.id = id` of the calls since the entry was (re)created (`Session`: the
+maximal suffix of calls that all contain `id`).  With that, the three run-level theorems whose
+hypotheses mention the ops — floor until an RTT sample, latch set, latch clear — get `tick_all`
+forms whose hypotheses mention the INPUTS of the calls. -/
+section session
+variable {F : Type} [Scalar F]
+
+/-- `CtlReach` = "is `ctlOf calls` for some list of calls". -/
+theorem C16_reach_is_calls (m : Ctl F) : CtlReach m ↔ ∃ calls : List (Call F), m = ctlOf calls :=
+  ⟨fun h => h.exists_calls, fun ⟨calls, h⟩ => h ▸ ctlOf_reach calls⟩
+
+/-- **Strengthened `C16_entry_is_run`.** Every entry of a reachable controller: the calls split as
+`pre ++ suf` with the entry absent after `pre` (no call yet, or the last call of `pre` lacks `id`:
+garbage-collected), every call of the non-empty `suf` containing `id`, and the entry is the state
+after exactly the loop bodies of the inputs with that id in `suf`, in call order. -/
+theorem C16_entry_is_session_run (m : Ctl F) (hm : CtlReach m) (id : Nat) (s : St F) (hg : m.get id = some s) :
+    ∃ pre suf : List (Call F), m = ctlOf (pre ++ suf) ∧ Session id pre suf ∧
+      s = run (sessionOps id suf) ∧
+      sessionOps id suf = suf.flatMap (fun call => (call.1.filter (·.id == id)).flatMap (connOps · call.2)) := by
+  obtain ⟨pre, suf, h1, h2, h3⟩ := hm.entry_session id s hg
+  exact ⟨pre, suf, h1, h2, h3, rfl⟩
+
+/-- … and conversely every session determines the entry. -/
+theorem C16_session_entry (id : Nat) (pre suf : List (Call F)) (hS : Session id pre suf) :
+    (ctlOf (pre ++ suf)).get id = some (run (sessionOps id suf)) :=
+  ctlOf_get_session id pre suf hS
+
+/-- The setting of the two latch theorems below: a session, then one more call in which `id` occurs
+once.  The entry before is `s = run (sessionOps id suf)`, after the call `connStep s c now`. -/
+theorem C16_session_step (id : Nat) (pre suf : List (Call F)) (hS : Session id pre suf)
+    (cpre cpost : List (ConnIn F)) (c : ConnIn F) (now : Nat) (hid : c.id = id)
+    (hpre : ∀ d ∈ cpre, d.id ≠ id) (hpost : ∀ d ∈ cpost, d.id ≠ id) :
+    let s := run (sessionOps id suf)
+    (ctlOf (pre ++ suf)).get id = some s ∧
+    (ctlOf (pre ++ (suf ++ [(cpre ++ c :: cpost, now)]))).get id = some (connStep s c now) ∧
+    connStep s c now = run (sessionOps id suf ++ connOps c now) := by
+  intro s
+  have hh : hasId id (cpre ++ c :: cpost, now) = true := by simp [hasId, hid]
+  have h2 := ctlOf_get_session id pre _ (session_snoc id pre suf hS _ hh)
+  have e : sessionOps id (suf ++ [(cpre ++ c :: cpost, now)]) = sessionOps id suf ++ connOps c now := by
+    simp only [sessionOps, List.flatMap_append, List.flatMap_cons, List.flatMap_nil, List.append_nil]
+    rw [callOps_once id cpre cpost c now hid hpre hpost]
+  rw [e] at h2
+  exact ⟨ctlOf_get_session id pre suf hS, by rw [h2, connStep_run], connStep_run _ c now⟩
+
+/-- **`C16_latch_set` over `tick_all`.**  For the entry of `id` in a reachable controller (session
+`suf`) and one more call in which `id` occurs once: if the verdict was not latched before the call and
+is latched after it, then the ghost trace of ALL loss-EWMA evaluations of this link since it was
+(re)created — `(now, ewma)` of every call of the session whose tick got past Bootstrap, newest first
+— starts with this call's evaluation, which compared `> 0.55`, followed by a run of evaluations that
+all compared `> 0.55` whose oldest is at least 4000 ms older.  Every scalar instance. -/
+theorem C16_latch_set_ctl (id : Nat) (pre suf : List (Call F)) (hS : Session id pre suf)
+    (cpre cpost : List (ConnIn F)) (c : ConnIn F) (now : Nat) (hid : c.id = id)
+    (hpre : ∀ d ∈ cpre, d.id ≠ id) (hpost : ∀ d ∈ cpost, d.id ≠ id) :
+    let s := run (sessionOps id suf)
+    let s' := connStep s c now
+    let tr' := (runG (sessionOps id suf ++ connOps c now) (St.default, [])).2
+    (ctlOf (pre ++ suf)).get id = some s ∧
+    (ctlOf (pre ++ (suf ++ [(cpre ++ c :: cpost, now)]))).get id = some s' ∧
+    (s.lossDegraded = false → s'.lossDegraded = true →
+      ∃ hrun rest first, tr' = (now, s'.lossEwma) :: (hrun ++ first :: rest) ∧
+        High s'.lossEwma ∧ (∀ p ∈ hrun, High p.2) ∧ High first.2 ∧ now - first.1 ≥ 4000) := by
+  intro s s' tr'
+  obtain ⟨g1, g2, -⟩ := C16_session_step id pre suf hS cpre cpost c now hid hpre hpost
+  refine ⟨g1, g2, ?_⟩
+  intro h0 h1
+  have k := C16_latch_set (sessionOps id suf ++ connPre c now) (connObs c) now
+  simp only [] at k
+  have e1 : (runG (sessionOps id suf ++ connPre c now) (St.default, [])).1 =
+      (connPre c now).foldl apply s := by
+    rw [C16_ghost_run, ← connPre_run]
+  have e2 : tick ((connPre c now).foldl apply s) (connObs c) now = s' := (connStep_eq_tick s c now).symm
+  have e3 : tr' = traceStep ((connPre c now).foldl apply s) (.tick (connObs c) now)
+      (runG (sessionOps id suf ++ connPre c now) (St.default, [])).2 := by
+    simp only [tr', connOps]
+    rw [← List.append_assoc, runG_append]
+    generalize hp : runG (sessionOps id suf ++ connPre c now) (St.default, []) = p at e1
+    obtain ⟨s1, tr1⟩ := p
+    simp only [runG]
+    simp only at e1
+    rw [e1]
+  rw [e1, e2] at k
+  have hk := (keeps_connPre s c now).2.2.1
+  obtain ⟨hrun, rest, first, a, b, d, f, g⟩ := k (by rw [hk]; exact h0) h1
+  exact ⟨hrun, rest, first, by rw [e3]; exact a, b, d, f, g⟩
+
+/-- **`C16_latch_clear` over `tick_all`.**  Same setting: if the verdict was latched before the call
+and is clear after it, then this call's tick got past the Bootstrap test (it evaluated the loss EWMA
+on the state `s1` left by the body's RTT sample and counter snapshot) and the EWMA compared `< 0.25`
+(and not `> 0.55`).  Every scalar instance. -/
+theorem C16_latch_clear_ctl (id : Nat) (pre suf : List (Call F)) (hS : Session id pre suf)
+    (cpre cpost : List (ConnIn F)) (c : ConnIn F) (now : Nat) (hid : c.id = id)
+    (hpre : ∀ d ∈ cpre, d.id ≠ id) (hpost : ∀ d ∈ cpost, d.id ≠ id) :
+    let s := run (sessionOps id suf)
+    let s' := connStep s c now
+    let s1 := (connPre c now).foldl apply s
+    (ctlOf (pre ++ suf)).get id = some s ∧
+    (ctlOf (pre ++ (suf ++ [(cpre ++ c :: cpost, now)]))).get id = some s' ∧
+    (s.lossDegraded = true → s'.lossDegraded = false →
+      noRtt (evictExpired s1 now) = false ∧ Low s'.lossEwma ∧ ¬ High s'.lossEwma) := by
+  intro s s' s1
+  obtain ⟨g1, g2, -⟩ := C16_session_step id pre suf hS cpre cpost c now hid hpre hpost
+  refine ⟨g1, g2, ?_⟩
+  intro h1 h2
+  have e1 : run (sessionOps id suf ++ connPre c now) = s1 := (connPre_run _ c now).symm
+  have e2 : tick s1 (connObs c) now = s' := (connStep_eq_tick s c now).symm
+  have hk := (keeps_connPre s c now).2.2.1
+  have k := C16_latch_clear (sessionOps id suf ++ connPre c now) (.tick (connObs c) now)
+    (by rw [e1]; show s1.lossDegraded = true; rw [hk]; exact h1)
+    (by rw [e1]; show (tick s1 (connObs c) now).lossDegraded = false; rw [e2]; exact h2)
+  obtain ⟨o, now', ho, a, b, d⟩ := k
+  cases ho
+  rw [e1] at a b d
+  rw [e2] at b d
+  exact ⟨a, b, d⟩
+
+end session
+
+section session_exact
+variable (e : Rat → Rat) (fin : Rat → Bool) (infv : Rat)
+
+/-- **`C16_floor_until_rtt` over `tick_all`.**  Exact arithmetic.  A link whose entry was (re)created
+by the session `suf` and none of whose inputs since carried a usable smoothed RTT (`> 0` and finite)
+— e.g. a link that has not yet had a keepalive echo, `get_smooth_rtt_ms() = 0.0` — sits at the floor
+100 kbit/s in Bootstrap, whatever its byte / NAK counters and measured bitrate did, whatever the
+other links did, and whatever happened in earlier lives of the same conn id. -/
+theorem C16_floor_until_rtt_ctl (id : Nat) (pre suf : List (Call Rat))
+    (hS : Session (F := Rat) id pre suf)
+    (hrtt : ∀ call ∈ suf, ∀ c ∈ call.1, c.id = id → ¬ (0 < c.smoothRtt ∧ fin c.smoothRtt = true)) :
+    letI := ratScalar e fin infv
+    ∃ s, (ctlOf (pre ++ suf)).get id = some s ∧ s.target = 100000 ∧ s.state = .bootstrap := by
+  refine ⟨_, @ctlOf_get_session Rat (ratScalar e fin infv) id pre suf hS, ?_⟩
+  apply C16_floor_until_rtt e fin infv
+  intro x t hx
+  obtain ⟨call, hc, c, hcm, hcid, hop⟩ := @mem_sessionOps Rat (ratScalar e fin infv) _ _ _ hx
+  obtain ⟨rfl, -, hlt⟩ := @mem_connOps_rtt Rat (ratScalar e fin infv) _ _ _ _ hop
+  have hpos : 0 < c.smoothRtt := by
+    have h' : decide (((0 : Nat) : Rat) < c.smoothRtt) = true := hlt
+    have := of_decide_eq_true h'
+    simpa using this
+  have hf : fin c.smoothRtt = false := by
+    cases hfc : fin c.smoothRtt
+    · rfl
+    · exact absurd ⟨hpos, hfc⟩ (hrtt call hc c hcm hcid)
+  simp [rttAccepted, Scalar.isFinite, hf]
+
+/-- `C16_latch_set_ctl` with the literal numbers (exact arithmetic). -/
+theorem C16_latch_set_ctl_literal (id : Nat) (pre suf : List (Call Rat))
+    (hS : Session (F := Rat) id pre suf)
+    (cpre cpost : List (ConnIn Rat)) (c : ConnIn Rat) (now : Nat) (hid : c.id = id)
+    (hpre : ∀ d ∈ cpre, d.id ≠ id) (hpost : ∀ d ∈ cpost, d.id ≠ id) :
+    letI := ratScalar e fin infv
+    let s := run (sessionOps id suf)
+    let s' := connStep s c now
+    let tr' := (runG (sessionOps id suf ++ connOps c now) (St.default, [])).2
+    s.lossDegraded = false → s'.lossDegraded = true →
+      ∃ hrun rest first, tr' = (now, s'.lossEwma) :: (hrun ++ first :: rest) ∧
+        (55 : Rat) / 100 < s'.lossEwma ∧ (∀ p ∈ hrun, (55 : Rat) / 100 < p.2) ∧
+        (55 : Rat) / 100 < first.2 ∧ now - first.1 ≥ 4000 := by
+  intro s s' tr' h0 h1
+  obtain ⟨hrun, rest, first, a, b, d, f, g⟩ :=
+    (@C16_latch_set_ctl Rat (ratScalar e fin infv) id pre suf hS cpre cpost c now hid hpre hpost).2.2 h0 h1
+  exact ⟨hrun, rest, first, a, (High_R e fin infv _).1 b, fun p hp => (High_R e fin infv _).1 (d p hp),
+    (High_R e fin infv _).1 f, g⟩
+
+/-- `C16_latch_clear_ctl` with the literal numbers (exact arithmetic). -/
+theorem C16_latch_clear_ctl_literal (id : Nat) (pre suf : List (Call Rat))
+    (hS : Session (F := Rat) id pre suf)
+    (cpre cpost : List (ConnIn Rat)) (c : ConnIn Rat) (now : Nat) (hid : c.id = id)
+    (hpre : ∀ d ∈ cpre, d.id ≠ id) (hpost : ∀ d ∈ cpost, d.id ≠ id) :
+    letI := ratScalar e fin infv
+    let s := run (sessionOps id suf)
+    let s' := connStep s c now
+    s.lossDegraded = true → s'.lossDegraded = false →
+      s'.lossEwma < (25 : Rat) / 100 ∧ ¬ ((55 : Rat) / 100 < s'.lossEwma) := by
+  intro s s' h1 h2
+  obtain ⟨-, b, d⟩ :=
+    (@C16_latch_clear_ctl Rat (ratScalar e fin infv) id pre suf hS cpre cpost c now hid hpre hpost).2.2 h1 h2
+  exact ⟨(Low_R e fin infv _).1 b, fun h => d ((High_R e fin infv _).2 h)⟩
+
+end session_exact
+
+/-! ### Witnesses for the session theorems (the calls of `C16_reach_ctl`) -/
+
+/-- the first two calls of `C16_reach_ctl` -/
+def witCalls : List (Call Rat) :=
+  [([witConn 0 0 1000000, witConn9], 500), ([witConn 13160 10 500000], 1000)]
+
+/-- link 7 is present in both calls: its session is the whole list -/
+theorem C16_reach_session : Session (F := Rat) 7 [] witCalls :=
+  ⟨by simp, by intro call hc; simp [witCalls] at hc; rcases hc with rfl | rfl <;> simp [hasId, witConn], by simp [witCalls]⟩
+
+/-- Hypotheses of `C16_latch_set_ctl` / `_literal` met: not latched after the two calls, latched by
+the third call `([witConn 26320 20 500000], 5000)`; the theorem then yields the trace decomposition
+(here: this call's evaluation `(5000, 1)` on top of `first = (1000, 1)`, `hrun = []`, `rest = [(500, 0)]`
+— the loss-free evaluation of the first call). -/
+example :
+    letI := witScalar
+    let s := run (sessionOps 7 witCalls)
+    (s.lossDegraded = false ∧ (connStep s (witConn 26320 20 500000) 5000).lossDegraded = true) ∧
+    (runG (sessionOps 7 witCalls ++ connOps (witConn 26320 20 500000) 5000) (St.default, [])).2 =
+      [(5000, 1), (1000, 1), (500, 0)] := by
+  decide +kernel
+
+example :=
+  (@C16_latch_set_ctl Rat witScalar 7 [] witCalls C16_reach_session [] [] (witConn 26320 20 500000) 5000 rfl
+    (by simp) (by simp)).2.2
+
+/-- Hypotheses of `C16_latch_clear_ctl` met: three calls latch (as above), a fourth, loss-free call
+6000 ms later (the 10/10 samples have left the 5 s window, EWMA 0 < 25/100) clears. -/
+example :
+    letI := witScalar
+    let calls3 := witCalls ++ [([witConn 26320 20 500000], 5000)]
+    let s := run (sessionOps 7 calls3)
+    s.lossDegraded = true ∧ (connStep s (witConn 26320 20 500000) 11000).lossDegraded = false := by
+  decide +kernel
+
+/-- Hypotheses of `C16_floor_until_rtt_ctl` met by link 9 (smoothed RTT 0.0 — no sample yet) in the
+first call, next to link 7, which does have an RTT and leaves Bootstrap in the same call. -/
+example :
+    letI := witScalar
+    Session (F := Rat) 9 [] [([witConn 0 0 1000000, witConn9], 500)] ∧
+    (∀ call ∈ [(([witConn 0 0 1000000, witConn9], 500) : Call Rat)], ∀ c ∈ call.1, c.id = 9 →
+      ¬ (0 < c.smoothRtt ∧ (fun x : Rat => decide (x ≠ -1)) c.smoothRtt = true)) := by
+  refine ⟨⟨by simp, by intro call hc; simp at hc; subst hc; simp [hasId, witConn9], by simp⟩, ?_⟩
+  intro call hc c hcm hid
+  simp at hc; subst hc
+  simp at hcm
+  rcases hcm with rfl | rfl
+  · simp [witConn] at hid
+  · simp [witConn9]
+
+/-- … while after the second call of `witCalls` link 9 has vanished: no entry, and a later
+re-appearance starts a NEW session (`pre` = the two calls, whose last lacks id 9). -/
+example :
+    letI := witScalar
+    (ctlOf witCalls).get 9 = none ∧
+    Session (F := Rat) 9 witCalls [([witConn9], 2000)] :=
+  ⟨by decide +kernel,
+   ⟨by intro last h; simp [witCalls] at h; subst h; simp [hasId, witConn],
+    by intro call hc; simp at hc; subst hc; simp [hasId, witConn9], by simp⟩⟩
 
 end Srtla.Props.C16
